@@ -9,11 +9,18 @@ CLAIMED = {
                 text="FuzzyMatchV2's score is proved equal to a naive whole-line evaluation of the documented recurrence and bounded by the best existing "
                      "alignment, and V1/exact/prefix/suffix/boundary/equal scores equal the score of the reported occurrence, for every text and pattern "
                      "inside the bounds; the solver covers all character-class combinations at once, which sampling cannot."),
+    "C05": dict(ref="DESIGN.md §3 C05", note=NOTE,
+                text="Each matcher is run twice on the same symbolic input: zeroed slab vs a slab whose every cell is an unconstrained symbol, bytes vs "
+                     "runes, with vs without positions; the solver proves the results identical for every input and every stale slab content inside "
+                     "the bounds - the arbitrary-history quantifier that tests with a nil slab cannot reach."),
+    "C11": dict(ref="DESIGN.md §3 C11", note=NOTE,
+                text="nextAnsiEscapeSequence is proved equal to a leftmost-first matcher of its documented regex, and extractColor's kept text equal to "
+                     "the input minus those matches with well-formed spans, for every byte string up to the bound (arbitrary bytes, not a generator's)."),
 }
 PENDING = "check not built yet in this session (planned, see DESIGN.md §3)"
 NA = {
-    "C01": PENDING, "C04": PENDING, "C05": PENDING, "C06": PENDING, "C07": PENDING, "C08": PENDING, "C09": PENDING,
-    "C10": PENDING, "C11": PENDING, "C12": PENDING, "C13": PENDING, "C16": PENDING, "C18": PENDING, "C19": PENDING,
+    "C01": PENDING, "C04": PENDING, "C06": PENDING, "C07": PENDING, "C08": PENDING, "C09": PENDING,
+    "C10": PENDING, "C12": PENDING, "C13": PENDING, "C16": PENDING, "C18": PENDING, "C19": PENDING,
     "C14": "terminal modes, child processes, signals and the goroutine/channel render loop are OS effects and schedules, not a bounded computation the SSA→SMT encoder can make symbolic (DESIGN.md §5)",
     "C15": "relation between the whole Terminal state and the byte stream written through tui.Window; thousands of lines of drawing code on uniseg tables with no leaf whose correctness implies the property (DESIGN.md §5)",
     "C17": "option/bind parsing is decided inside Go's regexp engine (a 400-character alternation and regexes compiled from input); a symbolic regexp is out of reach and contract stubs would create unreal states (DESIGN.md §5)",
